@@ -433,9 +433,9 @@ func (obj *Package) Remove(name string) (removed bool) {
 
 // Unbind makes a variable unbound. Other than with Remove() the variable
 // stays in the package and in the packages it is visible in so it is unbound
-// in all of them and keeps its export status. A constant, a variable with a
-// set function, and a variable of a locked package are removed from this
-// package only.
+// in all of them and keeps its export status. A constant and a variable with
+// a set function of this package are removed, inherited ones and the variables
+// of a locked package are left as they are.
 func (obj *Package) Unbind(name string) {
 	name = strings.ToLower(name)
 	home := obj
@@ -450,7 +450,9 @@ func (obj *Package) Unbind(name string) {
 	}
 	obj.mu.Unlock()
 	if !keep {
-		if !obj.Locked {
+		// An inherited variable that can not be made unbound at home stays
+		// visible here as well.
+		if !obj.Locked && (vv == nil || vv.Pkg == obj || vv.Pkg == nil) {
 			obj.Remove(name)
 		}
 		return
@@ -602,9 +604,11 @@ func (obj *Package) Undefine(name string) {
 	name = strings.ToLower(name)
 	obj.mu.Lock()
 	var home *Package
-	if fi := obj.funcs[name]; fi != nil && fi.Pkg == obj && obj.Locked {
+	if fi := obj.funcs[name]; fi != nil && fi.Pkg != nil && fi.Pkg.Locked {
+		// Neither a function of this locked package nor one inherited from
+		// a locked package is removed, not even from this package only.
 		obj.mu.Unlock()
-		PackagePanic(NewScope(), 0, obj, "Package %s is locked.", obj.Name)
+		PackagePanic(NewScope(), 0, fi.Pkg, "Package %s is locked.", fi.Pkg.Name)
 	} else if fi != nil {
 		delete(obj.funcs, name)
 		if fi.Pkg == obj {
@@ -623,7 +627,7 @@ func (obj *Package) Undefine(name string) {
 				vv.Export = true
 				obj.vars[name] = vv
 			}
-		} else if fi.Pkg != nil && !fi.Pkg.Locked {
+		} else if fi.Pkg != nil {
 			// An inherited function is undefined where it lives.
 			home = fi.Pkg
 		}
